@@ -432,3 +432,22 @@ func (c *Case) Inconclusive(format string, a ...any) {
 	c.inconclusive = true
 	c.mu.Unlock()
 }
+
+// ParkedOnLocks returns the library goroutines that are currently parked on a mutex (real clock,
+// outside bubbles): used after Stop to check that nothing is left blocked on library locks.
+func ParkedOnLocks() []string {
+	p1, _ := libGoroutines(dumpAll())
+	time.Sleep(300 * time.Millisecond)
+	p2, _ := libGoroutines(dumpAll())
+	in1 := map[string]bool{}
+	for _, p := range p1 {
+		in1[p] = true
+	}
+	var out []string
+	for _, p := range p2 {
+		if in1[p] && (strings.Contains(p, "Mutex") || strings.Contains(p, "semacquire")) {
+			out = append(out, p)
+		}
+	}
+	return out
+}
